@@ -321,7 +321,7 @@ theorem default_danger_laws {doc : σ → Nat} {adv : σ → σ} {seek : Nat →
     ∧ (∀ {s t0 l t}, defaultW V s t0 l → t0 ≤ t → doc s ≤ t → t ≤ TERMINATED →
         V (seek t s) (Spec.seek t l))
     ∧ (∀ {s l t}, V s l → t ≤ TERMINATED →
-        SDPost V (defaultW V) l t (doc s ≤ t) (defaultSeekDanger doc seek t s))
+        SDPost V (defaultW V) l t True (defaultSeekDanger doc seek t s))
     ∧ (∀ {s t0 l t}, defaultW V s t0 l → t0 ≤ t → t ≤ TERMINATED →
         SDPost V (defaultW V) l t True (defaultSeekDanger doc seek t s)) := by
   refine ⟨?_, ?_, ?_, ?_, ?_⟩
@@ -338,7 +338,7 @@ theorem default_danger_laws {doc : σ → Nat} {adv : σ → σ} {seek : Nat →
     rw [Spec.seek_seek h0]
     exact hC.seek hV hd ht
   · intro s l t hV ht
-    exact (defaultSeekDanger_law hC hV ht).weaken (fun _ => trivial)
+    exact defaultSeekDanger_law hC hV ht
   · rintro s t0 l t ⟨l0, hV, hn, rfl⟩ h0 ht
     have hs := hC.sorted hV
     have h := defaultSeekDanger_law hC hV ht
@@ -523,6 +523,57 @@ theorem core0_program_equiv (D : DS σ) (V : σ → List Nat → Prop)
     | fillBuffer => simp [advOnly] at hp
     | fillBitset m => simp [advOnly] at hp
     | count => simp [advOnly] at hp
+
+/-- programs of `doc`, `advance`, `seek` and `fill_bitset_block` calls -/
+def coreOnly : List Op → Bool
+  | [] => true
+  | .doc :: r => coreOnly r
+  | .advance :: r => coreOnly r
+  | .seek _ :: r => coreOnly r
+  | .fillBitset _ :: r => coreOnly r
+  | _ :: _ => false
+
+/-- for an implementation whose `doc`/`advance`/`seek` refine the cursor and whose
+`fill_bitset_block` is the trait default, every legal program of those four calls observes the
+specification's sequence -/
+theorem core_program_equiv (D : DS σ) (V : σ → List Nat → Prop)
+    (hC : Core D.doc D.advance D.seek V)
+    (hbs : D.fillBitset = defaultFillBitset D.doc D.advance D.seek) :
+    ∀ (prog : List Op) (s : σ) (l : List Nat), V s l → coreOnly prog = true →
+      legalProg ⟨l, none⟩ prog = true → implRun D s prog = specRun ⟨l, none⟩ prog := by
+  intro prog
+  induction prog with
+  | nil => intros; rfl
+  | cons op rest ih =>
+    intro s l hV hp hl
+    simp only [legalProg, Bool.and_eq_true] at hl
+    obtain ⟨⟨h1, _⟩, h3⟩ := hl
+    cases op with
+    | doc =>
+      simp only [implRun, specRun, implStep, specStep, hC.doc_eq hV]
+      congr 1
+      exact ih s l hV (by simpa [coreOnly] using hp) h3
+    | advance =>
+      have hV' := hC.advance hV
+      simp only [implRun, specRun, implStep, specStep, hC.doc_eq hV']
+      congr 1
+      exact ih _ _ hV' (by simpa [coreOnly] using hp) h3
+    | seek t =>
+      simp only [legalOp, Bool.and_eq_true, decide_eq_true_eq] at h1
+      have hV' := hC.seek hV (by rw [hC.doc_eq hV]; exact h1.1.2) h1.2
+      simp only [implRun, specRun, implStep, specStep, hC.doc_eq hV']
+      congr 1
+      exact ih _ _ hV' (by simpa [coreOnly] using hp) h3
+    | fillBitset m =>
+      simp only [legalOp, Bool.and_eq_true, decide_eq_true_eq] at h1
+      have h := defaultFillBitset_law hC hV (by rw [hC.doc_eq hV]; exact h1.1.2) h1.2
+      simp only [implRun, specRun, implStep, specStep, hbs]
+      rw [h.1]
+      congr 1
+      exact ih _ _ h.2 (by simpa [coreOnly] using hp) h3
+    | seekDanger t => simp [coreOnly] at hp
+    | fillBuffer => simp [coreOnly] at hp
+    | count => simp [coreOnly] at hp
 
 /-! ## the vector leaf -/
 namespace Vec
